@@ -14,10 +14,10 @@ func (fr *Frame) goStmt(x *ssa.Go) {
 	// the goroutine's effects are not sequenced; its precondition is checked here
 	vc := fr.vc
 	cc := x.Common()
-	callee, args, _ := fr.resolveCallee(cc)
+	callee, args, closure := fr.resolveCallee(cc)
 	if callee != nil {
 		if c := vc.P.ContractFor(callee); c != nil && len(c.Requires) > 0 {
-			fr.checkPre(x, callee, c, args, "go ")
+			fr.checkPreClosure(x, callee, c, args, "go ", closure)
 		}
 	}
 	fr.atCallAsserts(x, cc, args, callee)
@@ -77,7 +77,6 @@ func typeQual(t types.Type) string {
 }
 
 func (fr *Frame) callCommon(in ssa.Instruction, cc *ssa.CallCommon) *Val {
-	vc := fr.vc
 	var resT types.Type = cc.Signature().Results()
 	if cc.Signature().Results().Len() == 1 {
 		resT = cc.Signature().Results().At(0).Type()
@@ -92,6 +91,16 @@ func (fr *Frame) callCommon(in ssa.Instruction, cc *ssa.CallCommon) *Val {
 	callee, args, closure := fr.resolveCallee(cc)
 	name := calleeName(cc, callee)
 	fr.atCallAsserts(in, cc, args, callee)
+	if fr.c != nil && len(fr.c.AtCalls) > 0 {
+		r := fr.callDispatch(in, cc, callee, args, closure, name, resT)
+		fr.afterCall(in, cc, args, callee, r)
+		return r
+	}
+	return fr.callDispatch(in, cc, callee, args, closure, name, resT)
+}
+
+func (fr *Frame) callDispatch(in ssa.Instruction, cc *ssa.CallCommon, callee *ssa.Function, args []*Val, closure *Val, name string, resT types.Type) *Val {
+	vc := fr.vc
 	// Go-side models of well-known library functions
 	if h, ok := externHandlers[name]; ok {
 		if r, handled := h(fr, in, args, resT); handled {
@@ -168,7 +177,9 @@ func (fr *Frame) unknownCall(in ssa.Instruction, name string, args []*Val, resT 
 	vc.drop("havoc-call:" + shortType(name))
 	pure := knownPure[name] || strings.HasPrefix(name, "fmt.") || strings.HasPrefix(name, "errors.") || strings.HasPrefix(name, "log/slog.") || strings.HasPrefix(name, "(*log/slog.") || strings.Contains(name, "log/slog.(*Logger)")
 	if !pure {
+		pre := fr.cur
 		fr.cur = fr.cur.Havoc(nil, "c")
+		fr.preserveUnescaped(pre, fr.cur)
 		for _, a := range args {
 			fr.writeBackViewHavoc(a)
 		}
@@ -473,8 +484,28 @@ func (fr *Frame) builtinAppend(in ssa.Instruction, args []*Val, resT types.Type)
 // ---------- contracts at call sites ----------
 
 func (fr *Frame) checkPre(in ssa.Instruction, callee *ssa.Function, c *Contract, args []*Val, tag string) *SpecEnv {
+	return fr.checkPreClosure(in, callee, c, args, tag, nil)
+}
+
+func (fr *Frame) checkPreClosure(in ssa.Instruction, callee *ssa.Function, c *Contract, args []*Val, tag string, closure *Val) *SpecEnv {
 	vc := fr.vc
 	env := vc.calleeEnv(fr, c, callee, nil, args)
+	if closure != nil {
+		// captured variables are visible in the closure's contract under their source names
+		for i, fv := range callee.FreeVars {
+			if i >= len(closure.Bind) {
+				break
+			}
+			b := closure.Bind[i]
+			if _, isPtr := fv.Type().(*types.Pointer); isPtr {
+				if p := vc.ptrOf(b); p != nil {
+					env.names[fv.Name()] = vc.loadPtr(p, fr.cur)
+					continue
+				}
+			}
+			env.names[fv.Name()] = b
+		}
+	}
 	env.heap = fr.cur
 	env.old = fr.cur
 	env.held = fr.held
@@ -700,7 +731,7 @@ func (fr *Frame) atCallAsserts(in ssa.Instruction, cc *ssa.CallCommon, args []*V
 	vc := fr.vc
 	name := calleeName(cc, callee)
 	for k, ac := range fr.c.AtCalls {
-		if !calleeMatches(name, ac.Callee) {
+		if ac.After || ac.Kind == "let" || !calleeMatches(name, ac.Callee) {
 			continue
 		}
 		env := fr.specEnvHere()
@@ -749,4 +780,56 @@ func (fr *Frame) resultsAllocated(r *Val) {
 		return
 	}
 	fr.loadedRefFact(r, r.Typ)
+}
+
+// afterCall: "after call <callee> assume|assert <expr>" evaluated in the post-call state.
+func (fr *Frame) afterCall(in ssa.Instruction, cc *ssa.CallCommon, args []*Val, callee *ssa.Function, ret *Val) {
+	vc := fr.vc
+	name := calleeName(cc, callee)
+	for k, ac := range fr.c.AtCalls {
+		if !ac.After || !calleeMatches(name, ac.Callee) {
+			continue
+		}
+		env := fr.specEnvHere()
+		env.idx = fr.curI // names defined before the call
+		for i, a := range args {
+			env.bound[fmt.Sprintf("$%d", i)] = a
+		}
+		if ret != nil {
+			env.bound["$ret"] = ret
+		}
+		if ac.Kind == "let" {
+			// ghost snapshot: the value of the expression in the state right after the call
+			v := env.eval(ac.Cl.E)
+			sn := &Val{T: vc.S.Define("ghost."+ac.Let, vc.sortOfVal(v), vc.term(v)), Typ: v.Typ}
+			if fr.ghosts == nil {
+				fr.ghosts = map[string]*Val{}
+			}
+			fr.ghosts[ac.Let] = sn
+			continue
+		}
+		cond := env.evalBool(ac.Cl.E)
+		if ac.Kind == "assume" {
+			fr.assume(cond)
+			vc.Trusted[fmt.Sprintf("assumed after call %s in %s: %s", ac.Callee, fr.c.Func, ac.Cl.Src)] = true
+			continue
+		}
+		ck := fmt.Sprintf("after@%s#%d", ac.Callee, k)
+		n := vc.callCount[ck]
+		vc.callCount[ck] = n + 1
+		pos := vc.P.SSA.Fset.Position(in.Pos())
+		vc.addObl(&Obligation{Kind: "guard", Anchor: fmt.Sprintf("after:%s#%d/a%d", ac.Callee, n, k), Props: fr.c.ClauseProps(ac.Cl), Desc: fmt.Sprintf("after call %s: %s (%s:%d)", ac.Callee, ac.Cl.Src, shortFile(pos.Filename), pos.Line),
+			File: pos.Filename, Line: pos.Line, Goals: []Goal{{fr.here(), cond}}, Mark: vc.S.Mark()})
+		fr.assume(cond)
+	}
+}
+
+func (vc *VC) sortOfVal(v *Val) string {
+	if v.Typ == nil {
+		return "Int"
+	}
+	if b, ok := v.Typ.(*types.Basic); ok && b.Kind() == types.UntypedInt {
+		return "Int"
+	}
+	return vc.sortOf(v.Typ)
 }
